@@ -95,15 +95,10 @@ impl From<ctap2::StatusCode> for WebauthnError {
     }
 }
 
-/// Returns a decoded [String] if the domain name is punycode otherwise
-/// the original string reference [str] is returned.
-fn decode_host(host: &str) -> Option<Cow<str>> {
-    if host.split('.').any(|s| s.starts_with("xn--")) {
-        let (decoded, result) = idna::domain_to_unicode(host);
-        result.ok().map(|_| Cow::from(decoded))
-    } else {
-        Some(Cow::from(host))
-    }
+/// Returns the ASCII (punycode, lower case) form of the domain name, which is the form the public
+/// suffix list is keyed on, or `None` if it is not a valid internationalized domain name.
+fn host_to_ascii(host: &str) -> Option<Cow<str>> {
+    idna::domain_to_ascii(host).ok().map(Cow::from)
 }
 
 /// The origin of a WebAuthn request.
@@ -570,7 +565,7 @@ where
         }
 
         // assert rp_id is not part of the public suffix list and is a registerable domain.
-        if decode_host(rp_id)
+        if host_to_ascii(rp_id)
             .as_ref()
             .and_then(|s| self.tld_provider.effective_tld_plus_one(s).ok())
             .is_none()
@@ -614,7 +609,7 @@ where
             effective_rp_id = rp_id;
         }
 
-        if decode_host(effective_rp_id)
+        if host_to_ascii(effective_rp_id)
             .as_ref()
             .and_then(|s| self.tld_provider.effective_tld_plus_one(s).ok())
             .is_none()
